@@ -37,6 +37,7 @@ struct Global {
   std::string thrown;
   std::vector<std::pair<std::string,real_t> > inputs;
   int ncex = 0;
+  std::string cex_fn; int cex_fn_n = 0;
   long nexpect = 0;
 };
 inline Global& G () { static Global g; return g; }
@@ -91,7 +92,10 @@ inline void expect (const std::string& what, double got, double want, double tol
   g.nexpect ++;
   double sc = std::fabs (want) > 1 ? std::fabs (want) : 1;
   bool bad = (std::isnan (got) != std::isnan (want)) || (std::fabs (got - want) > tol * sc) || (std::isinf (got) != std::isinf (want));
-  if (!bad || g.ncex >= 20) return;
+  if (!bad || g.ncex >= 400) return;
+  if (g.cex_fn != g.fname) { g.cex_fn = g.fname; g.cex_fn_n = 0; }
+  if (g.cex_fn_n >= 2) return;
+  g.cex_fn_n ++;
   g.ncex ++;
   char b[64];
   g.cex << "{\"function\":\"" << g.fname << "\",\"run\":" << g.run << ",\"observable\":\"" << what << "\",\"inputs\":{";
